@@ -1,9 +1,11 @@
 #!/bin/bash
-# Build the framework from files on disk only: translate /repo's tables and kernels into
-# coq/gen/Src.v and do a full .vo build of the Coq development.
+# Build the framework from files on disk only: a full .vo build of the Coq development over the
+# reference translation of the unchanged tree (coq/ref/Src.v, or a fresh translation if that file is
+# missing). Every check then re-translates the source families its property depends on from the
+# current /repo working tree and rebuilds what that changes (tools/checklib.py build).
 set -e
 cd "$(dirname "$0")"
-/venv/bin/python tools/translate.py
+VERIF_FAMILIES=none /venv/bin/python tools/translate.py
 cd coq
 coq_makefile -f _CoqProject -o Makefile > /dev/null
 timeout 3000 make -j16
